@@ -217,6 +217,14 @@ class C06(SimCheck):
     def obs(self, case, res):
         return cb_trace(res["trace"])
 
+    def compare(self, case, impl, model):
+        # C06 relates implementation runs with each other; the model/code tie for the stepping
+        # theorems is decided by C05's correspondence. A model divergence here (e.g. caused by a defect
+        # belonging to another property) is recorded in the evidence, not turned into a C06 alarm.
+        d = super().compare(case, impl, model)
+        self.model_divergences = getattr(self, "model_divergences", 0) + (1 if d else 0)
+        return []
+
     def oracle(self, case, impl):
         fails = self.crash_fail(impl)
         if case.get("kind") == "ping":
@@ -264,6 +272,7 @@ class C06(SimCheck):
         super().stats(case, impl, acc)
         acc["paired_runs"] = acc.get("paired_runs", 0) + len(impl.get("variants", {}))
         acc["draws_consumed"] = acc.get("draws_consumed", 0) + impl["drawsUsed"]
+        acc["model_divergences_informative"] = getattr(self, "model_divergences", 0)
 
     def shrink(self, case, still_fails):
         return case
